@@ -716,6 +716,7 @@ int sim_main(int argc, char **argv) {
         long deadline = atol(arg_value(argc, argv, "--deadline", "0"));
         int samples = atoi(arg_value(argc, argv, "--samples", "0"));
         bool hashes = arg_flag(argc, argv, "--hashes");
+        bool all_cold = arg_flag(argc, argv, "--all-cold"); // every run in a pristine child
         uint64_t hash_limit = strtoull(arg_value(argc, argv, "--hash-limit", "18446744073709551615"), nullptr, 0);
         std::string cand = arg_value(argc, argv, "--cand-dir", "out/cand");
         const char *ntpath = arg_value(argc, argv, "--nt-out", nullptr);
@@ -744,7 +745,7 @@ int sim_main(int argc, char **argv) {
             scrub_stack();
             Outcome o;
             unsigned cold = getenv("SIM_NO_COLD") ? 0 : e->cold_start_every();
-            if (cold && idx % cold == cold - 1) {
+            if (all_cold || (cold && idx % cold == cold - 1)) {
                 GuardedResult gr = guarded_execute(*e, p);
                 o = gr.out;
                 stat("cold_start_runs");
